@@ -32,11 +32,11 @@ struct { unsigned char a[MC]; } SZ;
 void h_utf8_from_w(void)
 {
   XMLSize_t n, m, be = 0;
-  __CPROVER_assume(n <= NB && m <= MC);
+  VERIF_INPUT(n); VERIF_INPUT(m); VERIF_INPUT(SRC);   /* all byte strings */
+  VERIF_ASSUME(n <= NB && m <= MC);
   XMLByte *src = SRC.a + (NB - n);        /* end-aligned: reading past srcEnd leaves the object */
   XMLCh *out = OUT.a + (MC - m);
   unsigned char *sz = SZ.a + (MC - m);
-  { struct { XMLByte a[NB]; } t; SRC = t; }  /* all byte strings */
   verif_thrown = 0;
 
   XMLSize_t r = XMLUTF8Transcoder_transcodeFrom(src, n, out, m, &be, sz);
